@@ -22,6 +22,9 @@ def undash (s : String) : String := if s = "-" then "" else s
 def parseEntry (s : String) : Option Entry :=
   match s.splitOn "," with
   | [d, u, p] => do let ps ← parsePerms p; some ⟨d, undash u, ps⟩
+  -- 4th field: base denom ~ counterparty denom ~ display name ~ display symbol ~ external symbol of the
+  -- implementation's entry; the lookup does not look at them (fact `lookup`), the model has no such fields
+  | [d, u, p, _aux] => do let ps ← parsePerms p; some ⟨d, undash u, ps⟩
   | _ => none
 
 def parseReg (s : String) : Option Registry :=
